@@ -101,6 +101,7 @@ impl Assets {
 
 
 fn main() {
+    println!("cargo::rustc-check-cfg=cfg(routinator_verif)");
     if env::var_os("CARGO_FEATURE_UI").is_none() {
         return
     }
